@@ -1,6 +1,6 @@
 """C01 - interpreted programs behave exactly like the same program compiled by gc (DESIGN 7/C01).
 
-Six sub-parts, one check (the report format of Stop / Fatal / PanicError chains, PanicFlow, lives under C12):
+Seven sub-parts, one check (the report format of Stop / Fatal / PanicError chains, PanicFlow, lives under C12):
   intalu     IntALU.tla     integer arithmetic at every width / shifts / conversions / division faults
   initorder  InitOrder.tla  package-level initialisation order and initialisation cycles
   conv       StrConv.tla    int -> string, []byte / []rune <-> string
@@ -8,6 +8,8 @@ Six sub-parts, one check (the report format of Stop / Fatal / PanicError chains,
   deferflow  MiniGoFlow.tla every defer / panic / recover program (a tree of functions) up to a number of nodes,
                             enumerated by TLC and run by the same reference interpreter
   misc       GoMisc.tla     variadic calls, select with one ready case, uses of one constant at several types
+  pkginit    PkgInit.tla    programs of several packages: every import graph over p, q, r, main, the order in which the
+                            packages, their variables and their init functions are initialised; import cycles
 The reference is the TLA+ specification; gc is only the oracle guard on the violation path.
 """
 import json, os, re, random, shutil, subprocess, concurrent.futures as cf
@@ -17,10 +19,10 @@ from rig import Infra
 META = {
     "title": "Interpreted programs behave like gc",
     "engine": "GoSem",
-    "technique": "TLA+ reference of Go semantics (IntALU over BigInt, InitOrder, StrConv over Utf8, the MiniGo interpreter incl. call frames with defer / panic / recover, GoMisc: variadic calls, select, constant uses) + implementation-shaped models of the VM's per-kind truncation switches and of the checker's declaration sort (sortDeclarations / funcVarsResolved / checkDepsPath), model-checked exhaustively by TLC; TLC exports the case spaces - for MiniGo it runs every program to completion to obtain its output, and it enumerates every defer/panic/recover program (tree of functions) up to a number of nodes; a Go driver writes each case as Go source (in up to four source forms), builds and runs it with the real scriggo.Build/Run; a TLC Trace spec judges every observation against the reference; gc is consulted only for failing cases (oracle guard)",
+    "technique": "TLA+ reference of Go semantics (IntALU over BigInt, InitOrder, StrConv over Utf8, the MiniGo interpreter incl. call frames with defer / panic / recover, GoMisc: variadic calls, select, constant uses, PkgInit: initialisation of a program of several packages) + implementation-shaped models of the VM's per-kind truncation switches, of the checker's declaration sort (sortDeclarations / funcVarsResolved / checkDepsPath), of the emitter's list of init functions (emitPackage / emitImport) and of the import stack of ParseProgram, model-checked exhaustively by TLC; TLC exports the case spaces - for MiniGo it runs every program to completion to obtain its output, and it enumerates every defer/panic/recover program (tree of functions) up to a number of nodes; a Go driver writes each case as Go source (in up to four source forms; a program of several packages as go.mod + one directory per package), builds and runs it with the real scriggo.Build/Run; a TLC Trace spec judges every observation against the reference; gc is consulted only for failing cases (oracle guard)",
     "level": "model_checking",
-    "level_text": "TLC model-checks Impl(op,kind,x,y) against Ref for all 11 integer kinds x 17 binary + 2 unary operators + conversions x boundary operands x shift counts of every count kind (register and constant-operand forms); the declaration-sort algorithm of the checker, under both textual orders of the dependencies, against the Go spec's initialisation algorithm for all dependency graphs over 3 variables + 1 function with at most 3 edges and all 'through functions' graphs (no direct variable -> variable edge; chains, recursion and mutual recursion of functions) over 3 variables + 2 functions with at most 5 edges (thorough: all 65 536 graphs over 3 + 1, all graphs over 4 + 2 with at most 3 edges, through-functions graphs with at most 6 edges); the same cases are run through the real Build/Run in up to four source forms each and every printed value / panic message / build outcome is judged by the TLA+ reference. MiniGo programs (labelled break / continue across for, range and switch, switch/fallthrough, goto, closures, arrays/structs/slices/maps, strings, run-time faults, operand evaluation order of println) are interpreted by TLC and their output compared with the real run; every defer/panic/recover program of at most 5 (thorough 6) nodes - nested calls, deferred calls, panics raised while panicking, recover at every position - is enumerated and interpreted by TLC and run as top-level functions and as function literals; every variadic call shape (0..2 fixed, 0..3 variadic arguments or a nil / empty / non-empty slice spread), every select over 2..3 buffered channels with exactly one (or no) ready case, and every sequence of up to 3 (thorough 4) uses of one bool / int constant at different types is run and judged.",
-    "level_note": "Trusted: TLC, lib/BigInt.tla and lib/Utf8.tla, the concretiser (record -> Go source by string templates) and the print capture of the driver. gc is not on the passing path. The final outcome judged for a panic is the message of the newest panic (PanicError.String); the chain format and Stop/Fatal are C12's. Not covered: floating point and complex numbers, print formatting of floats, the // run corpus, goroutines and unbuffered channels (C14), methods on Scriggo-defined types and generics (outside Scriggo's subset), runtime.Goexit, panic values other than int and run-time errors, named results modified by deferred closures (where the Go specification's wording on recover() leaves room - a deferred call run by an ordinary return while an outer panic is in progress - the reference follows gc: nil; the reference was audited against gc on 572 programs of the defer/panic/recover space), register-allocation pressure beyond the generated programs.",
+    "level_text": "TLC model-checks Impl(op,kind,x,y) against Ref for all 11 integer kinds x 17 binary + 2 unary operators + conversions x boundary operands x shift counts of every count kind (register and constant-operand forms); the declaration-sort algorithm of the checker, under both textual orders of the dependencies, against the Go spec's initialisation algorithm for all dependency graphs over 3 variables + 1 function with at most 3 edges and all 'through functions' graphs (no direct variable -> variable edge; chains, recursion and mutual recursion of functions) over 3 variables + 2 functions with at most 5 edges (thorough: all 65 536 graphs over 3 + 1, all graphs over 4 + 2 with at most 3 edges, through-functions graphs with at most 6 edges); the same cases are run through the real Build/Run in up to four source forms each and every printed value / panic message / build outcome is judged by the TLA+ reference. MiniGo programs (labelled break / continue across for, range and switch, switch/fallthrough, goto, closures, arrays/structs/slices/maps, strings, run-time faults, operand evaluation order of println) are interpreted by TLC and their output compared with the real run; every defer/panic/recover program of at most 5 (thorough 6) nodes - nested calls, deferred calls, panics raised while panicking, recover at every position - is enumerated and interpreted by TLC and run as top-level functions and as function literals; every variadic call shape (0..2 fixed, 0..3 variadic arguments or a nil / empty / non-empty slice spread), every select over 2..3 buffered channels with exactly one (or no) ready case, and every sequence of up to 3 (thorough 4) uses of one bool / int constant at different types is run and judged. Programs of several packages: every acyclic import graph over the packages p, q, r and main (370 graphs, every order of the import declarations: chains, fans, diamonds, a package imported directly and through another) with 2 (thorough 24) drawn decorations each - 0..2 variables per package whose initialisers print and read a variable of an imported package or of their own package, 0..2 init functions per package that print and write a variable of an imported package, main prints every final value - in two source forms; TLC model-checks the emitter's construction of the list of init functions against the Go specification's order (imported packages first, every package once, variables before init functions, main last) and the judge accepts the output of any order of independent packages that the specification allowed before Go 1.21 fixed it to import-path order; every import graph with a cycle (1290; the quick tier runs a third of them, chosen by the seed) must be rejected by Build.",
+    "level_note": "Trusted: TLC, lib/BigInt.tla and lib/Utf8.tla, the concretiser (record -> Go source by string templates) and the print capture of the driver. gc is not on the passing path. The final outcome judged for a panic is the message of the newest panic (PanicError.String); the chain format and Stop/Fatal are C12's. Not covered: floating point and complex numbers, print formatting of floats, the // run corpus, goroutines and unbuffered channels (C14), methods on Scriggo-defined types and generics (outside Scriggo's subset), runtime.Goexit, panic values other than int and run-time errors, named results modified by deferred closures (where the Go specification's wording on recover() leaves room - a deferred call run by an ordinary return while an outer panic is in progress - the reference follows gc: nil; the reference was audited against gc on 572 programs of the defer/panic/recover space), register-allocation pressure beyond the generated programs; for programs of several packages: the Go 1.21 rule that independent packages are initialised in import-path order (Scriggo follows the order of the import declarations; the number of programs whose output differs from that of the Go 1.21 order is counted in pkginit_output_differs_from_go1_21_import_path_order, not judged), packages of more than one file, more than 4 packages, blank / dot / renamed imports, native packages.",
     "design_ref": "7/C01",
 }
 FAMS = ["gosem"]
@@ -30,7 +32,8 @@ FAMS = ["gosem"]
 _I83 = " (upstream issue open2b/scriggo#83: labelled break and continue are not implemented; emitter_statements.go case *ast.Break / *ast.Continue)"
 PROPOSED_KNOWN = []   # integrated into known-findings.json
 
-BASE = {"intalu": 0, "initorder": 1000000, "conv": 2000000, "minigo": 3000000, "deferflow": 4000000, "misc": 5000000}
+BASE = {"intalu": 0, "initorder": 1000000, "conv": 2000000, "minigo": 3000000, "deferflow": 4000000, "misc": 5000000,
+        "pkginit": 6000000}
 NO_ALT = {"out": [], "outcome": "none", "msg": []}
 
 
@@ -644,8 +647,46 @@ def part_misc(ctx):
     return cases, info
 
 
+def part_pkginit(ctx):
+    """Programs of several packages (PkgInit.tla): every import graph over p, q, r, main with every order of the import
+    declarations, PkgSamples decorations (variables, init functions, reads and writes across packages) per graph, and
+    the graphs with an import cycle (quick: one out of three, chosen by the seed)."""
+    n, samples, cycstep = 4, ctx.pick(2, 24), ctx.pick(3, 1)
+    wd = ctx.stage("mc_pkginit", FAMS)
+    (wd / "PkgInitCfg.tla").write_text("---- MODULE PkgInitCfg ----\nPkgN == %d\nPkgSamples == %d\nPkgSeed == %d\nPkgCycStep == %d\n====\n" % (n, samples, ctx.seed, cycstep))
+    invs = ["ImplMeetsRef", "RefSane", "ParserMeetsRef", "ParserAncestorsOnlyMeetsRef"]
+    rig.write_cfg(wd / "MC_PkgInit.cfg", invariants=invs)
+    r = ctx.tlc(wd, "MC_PkgInit", workers=4, timeout=1500, extra=["-continue"])
+    if "Model checking completed" not in r.out:
+        raise Infra(f"MC_PkgInit did not complete: {wd}/MC_PkgInit.out\n" + rig.tail(r.out, 25))
+    cases = rig.read_ndjson(wd / "cases.ndjson")
+    if not cases or r.distinct != 2 * len(cases):
+        raise Infra(f"MC_PkgInit: {len(cases)} cases exported, {r.distinct} states (two per case expected): {wd}/MC_PkgInit.out")
+    acyc = [c for c in cases if c["g121"]]
+
+    def shared(c):      # some package is imported by two packages or more (it is reached twice: diamonds, direct + indirect)
+        cnt = {}
+        for im in c["imps"]:
+            for j in im:
+                cnt[j] = cnt.get(j, 0) + 1
+        return any(v >= 2 for v in cnt.values())
+    info = {"states": r.distinct, "transitions": r.generated, "mc_wall_s": round(r.wall, 1), "mc_invariants": invs,
+            "packages": n, "decorations_per_import_graph": samples, "cases": len(cases),
+            "import_graphs": len({json.dumps(c["imps"]) for c in acyc}),
+            "import_graphs_with_a_cycle": len(cases) - len(acyc), "import_graphs_with_a_cycle_one_out_of": cycstep,
+            "programs": len(acyc), "programs_with_a_package_imported_twice_or_more": sum(1 for c in acyc if shared(c)),
+            "programs_where_init_functions_write_imported_variables": sum(1 for c in acyc if any(w["p"] for ws in c["inits"] for w in ws))}
+    viol = mc_violations(r.out)
+    if viol:
+        # ParserMeetsRef: the stack search of ParseProgram as it is in the code (a pending import is taken for an ancestor)
+        # reports a cycle on acyclic graphs; diagnostic - the programs are run on the real code
+        info["model_counterexample"] = {"violating_states_by_invariant": viol, "tlc_out": str(wd / "MC_PkgInit.out"),
+                                        "replayed": "every program of the space is run on the real code"}
+    return cases, info
+
+
 PARTS = [("intalu", part_intalu), ("initorder", part_initorder), ("conv", part_conv), ("minigo", part_minigo),
-         ("deferflow", part_deferflow), ("misc", part_misc)]
+         ("deferflow", part_deferflow), ("misc", part_misc), ("pkginit", part_pkginit)]
 MISC_FAMS = ("variadic", "select", "constuse")
 
 
@@ -661,6 +702,8 @@ def case_from_obs(o):
         return {k: o[k] for k in ("id", "fam", "shape", "forms", "prog", "exp", "alt") if k in o}
     if o["fam"] in MISC_FAMS:
         return {k: v for k, v in o.items() if k not in ("outcome", "out", "msg", "src", "raw")}
+    if o["fam"] == "pkginit":
+        return {k: o[k] for k in ("id", "fam", "imps", "vars", "inits", "forms", "g121")}
     raise Infra("unknown family in observation: %r" % o.get("fam"))
 
 
@@ -682,6 +725,9 @@ def sample(o):
         return {"fam": "minigo", "shape": o["shape"], "form": o.get("form", ""), "expected": mg_text(o["exp"])[-400:], "observed": mg_text(o)[-400:]}
     if o["fam"] in MISC_FAMS:
         return {k: v for k, v in o.items() if k not in ("src", "raw", "id")}
+    if o["fam"] == "pkginit":
+        return {"fam": "pkginit", "imports (p=1, q=2, r=3, main=4)": o["imps"], "variables read": o["vars"], "init functions write": o["inits"],
+                "source_form": o["form"], "outcome": o["outcome"], "printed": o["out"], "msg": o["msg"][:200]}
     return {k: v for k, v in o.items() if k not in ("src", "raw")}
 
 
@@ -707,6 +753,8 @@ def nontrivial(o):
         return o["mode"] == "spread" or o["nvar"] == 0
     if o["fam"] == "constuse":    # the constant is used at two types or more
         return len(set(o["uses"])) >= 2
+    if o["fam"] == "pkginit":     # two packages or more have something to initialise
+        return sum(1 for i in range(len(o["imps"])) if o["vars"][i] or o["inits"][i]) >= 2
     return True
 
 
@@ -745,6 +793,15 @@ def corrupt(o):
         else:
             o["out"] = ([o["out"][0] + 1] + o["out"][1:]) if o["out"] else [1]
         return o
+    if o["fam"] == "pkginit":
+        if o["outcome"] != "ok":              # a cycle, or a rejected program: as if it had run and printed nothing
+            o["outcome"], o["out"] = "ok", []
+        elif any(l and l[0] % 10 in (1, 2, 3, 4) for l in o["out"]):
+            k = next(k for k, l in enumerate(o["out"]) if l and l[0] % 10 in (1, 2, 3, 4))
+            o["out"].insert(k, list(o["out"][k]))      # the first initialisation step happens twice
+        else:
+            o["out"][-1][-1] += 1
+        return o
     if o["fam"] == "initorder":
         if o["outcome"] == "ok" and o["order"]:
             o["order"][0] = o["order"][0] % o["nv"] + 1 if o["nv"] > 1 else 7
@@ -764,7 +821,7 @@ def judge(ctx, step, recs, shards=1, per=2000):
     parts = [recs[i:i + size] for i in range(0, len(recs), size)]
 
     def slim(o):   # what the Trace spec reads (the program text of a minigo case is not judged: exp carries its observable)
-        o = {k: v for k, v in o.items() if k not in ("prog", "forms", "src", "raw")}
+        o = {k: v for k, v in o.items() if k not in ("prog", "forms", "src", "raw", "g121")}
         if o["fam"] == "minigo":
             o.setdefault("alt", NO_ALT)
         return o
@@ -787,14 +844,35 @@ def gc_raw(ctx, src, n):
     """Oracle guard: build and run src with gc; returns the normalised output text."""
     d = ctx.work / "gc" / str(n)
     d.mkdir(parents=True, exist_ok=True)
-    (d / "main.go").write_text(src)
-    (d / "go.mod").write_text("module c01guard\n\ngo 1.25.0\n")
+    files = split_files(src)
+    if files:                                 # a program of several packages (pkginit): go.mod is one of the files
+        for name, text in files.items():
+            (d / name).parent.mkdir(parents=True, exist_ok=True)
+            (d / name).write_text(text)
+    else:
+        (d / "main.go").write_text(src)
+        (d / "go.mod").write_text("module c01guard\n\ngo 1.25.0\n")
     try:
-        p = subprocess.run(["go", "run", "main.go"], cwd=d, env=rig.goenv(), stdout=subprocess.PIPE, stderr=subprocess.STDOUT,
+        p = subprocess.run(["go", "run", "." if files else "main.go"], cwd=d, env=rig.goenv(), stdout=subprocess.PIPE, stderr=subprocess.STDOUT,
                            text=True, errors="replace", timeout=300)
     except subprocess.TimeoutExpired:
         return None
     return normalise_gc(p.stdout, p.returncode)
+
+
+def split_files(src):
+    """the files of a source written by the driver as '-- path --' sections (pkginit); {} for a single main.go"""
+    if not src.startswith("-- "):
+        return {}
+    files, name = {}, None
+    for line in src.splitlines(keepends=True):
+        m = re.match(r"^-- (\S+) --$", line.rstrip("\n"))
+        if m:
+            name = m.group(1)
+            files[name] = ""
+        elif name is not None:
+            files[name] += line
+    return files
 
 
 def normalise_gc(text, rc):
@@ -864,11 +942,14 @@ def run(ctx, replay_cases=None):
         transitions=sum(i.get("transitions", 0) for i in infos.values()),
         parts=infos,
         evaluations=len(allobs), traces_validated_against_impl=len(allobs),
-        distinct_nontrivial=len({json.dumps(case_from_obs(o), sort_keys=True) + o.get("form", "") for o in allobs if nontrivial(o)}),
-        rule="minigo: seeded programs of 11 shapes (labelled loops, labelled break / continue across for / range / switch, switch/fallthrough, goto, closures, array/struct/pointer values, slice aliasing, maps, strings, run-time faults, println operand order), expected output computed by TLC; deferflow: every tree of functions over the nodes call / defer / recover / panic with at most max_nodes nodes, all of whose nodes run, interpreted by TLC, in the source forms named / literal; non-trivial = more than one printed line or a panic. conv: all conversions of the 12-value rune set / strings of <= MaxPieces well- and ill-formed UTF-8 pieces; non-trivial = a non-ASCII value is involved. initorder: every dependency graph of the bounded spaces, one program per textual order of the dependencies; non-trivial = at least one edge. intalu: TLC-exported space (all kinds x operators x boundary operands x shift counts), each case in the source forms var / literal operand / op-assignment / if-condition; non-trivial = result wrapped, shifted out, divided, converted or panicked. variadic / select / constuse: the spaces of MC_GoMisc.tla, one program per case; non-trivial = nothing or a slice passed for the variadic parameter / every select / the constant used at two types or more. One record per (case, form).",
+        distinct_nontrivial=len({json.dumps(case_from_obs(o), sort_keys=True) + str(o.get("form", "")) for o in allobs if nontrivial(o)}),
+        rule="minigo: seeded programs of 11 shapes (labelled loops, labelled break / continue across for / range / switch, switch/fallthrough, goto, closures, array/struct/pointer values, slice aliasing, maps, strings, run-time faults, println operand order), expected output computed by TLC; deferflow: every tree of functions over the nodes call / defer / recover / panic with at most max_nodes nodes, all of whose nodes run, interpreted by TLC, in the source forms named / literal; non-trivial = more than one printed line or a panic. conv: all conversions of the 12-value rune set / strings of <= MaxPieces well- and ill-formed UTF-8 pieces; non-trivial = a non-ASCII value is involved. initorder: every dependency graph of the bounded spaces, one program per textual order of the dependencies; non-trivial = at least one edge. intalu: TLC-exported space (all kinds x operators x boundary operands x shift counts), each case in the source forms var / literal operand / op-assignment / if-condition; non-trivial = result wrapped, shifted out, divided, converted or panicked. variadic / select / constuse: the spaces of MC_GoMisc.tla, one program per case; non-trivial = nothing or a slice passed for the variadic parameter / every select / the constant used at two types or more. pkginit: every import graph over p, q, r, main (with and without cycles, every order of the import declarations) x drawn decorations, in the source forms separate / grouped import declarations; non-trivial = two packages or more have variables or init functions. One record per (case, form).",
         exhaustive=True,
         samples=[sample(o) for fam in sorted(by_fam) for o in rig.pick_samples(by_fam[fam], 2, ctx.seed)],
     )
+    # diagnostic (see PkgInit.tla): programs of several packages whose output is one the specification allowed up to Go 1.20
+    # but not the one of the Go 1.21 rule (independent packages in import-path order), which is what gc prints
+    ctx.cov["pkginit_output_differs_from_go1_21_import_path_order"] = sum(1 for o in by_fam.get("pkginit", []) if o["outcome"] == "ok" and o["out"] != o["g121"])
     ctx.cov["panic_message_detail_differs"] = sum(1 for o in by_fam.get("minigo", []) if o["outcome"] == "panic" and o["exp"]["outcome"] == "panic" and o["msg"] != o["exp"]["msg"])
     # judge
     bads = judge(ctx, "trace", allobs, shards=ctx.pick(12, 14))
@@ -953,7 +1034,9 @@ def run(ctx, replay_cases=None):
         (rdir / "obs.json").write_text(json.dumps(b["obs"]))
         if b.get("src"):
             (rdir / "source").mkdir(exist_ok=True)
-            (rdir / "source" / "main.go").write_text(b["src"])
+            for name, text in (split_files(b["src"]) or {"main.go": b["src"]}).items():
+                (rdir / "source" / name).parent.mkdir(parents=True, exist_ok=True)
+                (rdir / "source" / name).write_text(text)
     return ctx.report(confirmed, replay_writer=rw)
 
 
